@@ -12,8 +12,8 @@ def run(tier, seed, replay=None):
     lines, wd = subfam.run_family(ck, binary, "listeners", n, seed, strict=True)
     shutil.rmtree(wd, ignore_errors=True)
     nseq = sum(1 for ln in lines if '"final.listener"' in ln)
-    for fam, cnt in (("faults", n), ("close", n), ("stall", 16 if tier == "quick" else 96)):
-        more, wd = subfam.run_family(ck, binary, fam, cnt, seed, strict=True)
+    for fam, cnt in (("faults", n), ("close", n), ("scoped", n), ("stall", 16 if tier == "quick" else 96)):
+        more, wd = subfam.run_family(ck, binary, fam, cnt, seed, strict=(fam != "scoped"))
         shutil.rmtree(wd, ignore_errors=True)
         nseq += sum(1 for ln in more if '"final.listener"' in ln)
         if fam == "stall":
@@ -28,7 +28,7 @@ def run(tier, seed, replay=None):
                       "read until the end of the run (stalled readers), in the other half they are read by fast and slow reader goroutines as the run goes on, while every sync step must still complete under the scheduler's watchdog; TLC validates that "
                       "each notification taken by the distributor is the oldest pending one of its publisher, and that each listener's received sequence "
                       "(publisher, CID, count, error) equals what was forwarded while it was in the distributor's list, and that its channel was closed; family 'faults' adds failing syncs (error notifications), family 'close' "
-                      "concurrent Close calls at random points (a sync aborted by Close still sends its notification before the channels are closed), family 'stall' "
+                      "concurrent Close calls at random points (a sync aborted by Close still sends its notification before the channels are closed), family 'scoped' explicit syncs of the announced publishers, every other one a resync of the head recorded already (it is recorded and notified again), family 'stall' "
                       "one listener that does not read while about 90 advertisements of one publisher are announced and synced one after the other")
     ck.assumptions += ["notification order with explicit syncs overlapping announce-triggered ones is covered by C08's known findings"]
     return ck
